@@ -290,10 +290,25 @@ func convCisco(env *run.Env, g *genCase, o *convOutcome, changed, wantPrefixes b
 	if dev.Kind == "ios" {
 		spellings = []bool{false, true}
 	}
+	type spelling struct {
+		xe    bool
+		named bool // ASA: names for ports, log levels and ICMP types, as the device shows them
+	}
+	var sl []spelling
 	for _, xe := range spellings {
-		dev.XE = xe
+		sl = append(sl, spelling{xe: xe})
+	}
+	if dev.Kind == "asa" {
+		sl = append(sl, spelling{named: true})
+	}
+	for _, sp := range sl {
+		dev.XE = sp.xe
 		pc := g.pair()
 		pc.Device = dev.Dump()
+		if sp.named {
+			ng := &mcisco.Gen{Rng: rand.New(rand.NewSource(g.Seed)), Kind: dev.Kind}
+			pc.Device = ng.DeviceSpelling(pc.Device)
+		}
 		r2 := runPair(env, pc, false)
 		if r2.Exit != 0 || r2.Stdout != "" || !strings.Contains(r2.Stderr, "comp: device unchanged") {
 			o.Conv = &clause{"second-compare-not-clean:" + scriptShape(r2.Stdout), firstLines(r2.Stdout+r2.Stderr, 5)}
